@@ -216,7 +216,18 @@ fn extra_valid(buf: &[u8], large: bool) -> bool {
     true
 }
 
-const SRC: [(&str, &[u8]); 3] = [("src/deflated.txt", b"raw copy source, deflated deflated deflated deflated"), ("src/stored.bin", b"\x00\x01\x02stored"), ("src/empty", b"")];
+static BIG64K: [u8; 65536] = {
+    let mut a = [0u8; 65536];
+    let mut i = 0;
+    while i < 65536 {
+        a[i] = (i as u32).wrapping_mul(2654435761).to_le_bytes()[3];
+        i += 1;
+    }
+    a
+};
+/// raw-copy sources: a deflated text, a small stored blob, an empty entry, and a stored entry of exactly
+/// 65536 bytes (a whole number of typical copy-buffer sizes)
+const SRC: [(&str, &[u8]); 4] = [("src/deflated.txt", b"raw copy source, deflated deflated deflated deflated"), ("src/stored.bin", b"\x00\x01\x02stored"), ("src/empty", b""), ("src/exactly-64k.bin", &BIG64K)];
 
 impl Model {
     /// implicit end of the current entry when a new entry/finish is requested
